@@ -334,4 +334,13 @@ example :
     let s := run init [.construct { charge := some 1 }, .setAtnums (some [1, 1])]
     getNelec s = none ∧ getNelec (step s .getCharge).1 = some 1 := by decide +kernel
 
+/-- recorded observation (used by C08/C09/C14, outside C11's statement): `attrs.evolve(data, …)`, as
+called by `prepare_*`, replays `__init__`; with a stale hidden `_nelec` and orbitals present the
+replay raises `TypeError`.  Replayed on the real code: `d = IOData(nelec=5.0); d.mo = mo;
+prepare_segmented(d, False, True, …)` raises `TypeError` instead of converting. -/
+example :
+    let s := run init [.setNelec (some 5), .setMo (some ⟨some 3, some 1⟩)]
+    s.nelec = some 5 ∧ (match construct s with | .error .typeError => true | .ok _ => false) = true := by
+  decide +kernel
+
 end Iodata.Props.C11
